@@ -411,4 +411,5 @@ def search(factory_mod, factory_name, params, opts, pool=None, max_depth=None,
     res["depth"] = depth
     hs = sorted(seen.values(), key=lambda h: (len(h), json.dumps(h)))
     res["samples"] = [hs[0], hs[len(hs) // 2], hs[-1]] if hs else []
+    res["all_histories"] = hs
     return res
